@@ -140,8 +140,10 @@ type sched struct {
 	start    time.Time
 	timers   []*vtimer
 	timerSeq int
-	chans    map[uintptr]*chanState
-	keyIDs   map[any]int
+	// (no Go maps in the scheduler's own state: the runtime's map functions are race-instrumented regardless of //go:norace)
+	chanKeys []uintptr
+	chanVals []*chanState
+	keyList  []any
 	steps    int
 	quiet    bool // choice points are not recorded/explored (deterministic set-up phases take option 0)
 }
@@ -168,13 +170,17 @@ func Exec(cfg Config, body func()) *Execution {
 	if cfg.MaxSteps == 0 {
 		cfg.MaxSteps = 20000
 	}
-	s := &sched{cfg: cfg, ctl: make(chan struct{}), exec: &Execution{}, now: epoch, start: epoch,
-		chans: map[uintptr]*chanState{}, keyIDs: map[any]int{}}
+	s := &sched{cfg: cfg, ctl: make(chan struct{}), exec: &Execution{}, now: epoch, start: epoch}
 	cur = s
 	defer clearCur()
 	s.spawn("main", body)
 	s.loop()
 	s.teardown()
+	// everything this execution's goroutines did happens-before whatever the next execution does (global caches
+	// survive executions; without this edge the race detector would pair accesses of different executions)
+	for _, t := range s.threads {
+		raceAcquireExit(t)
+	}
 	s.exec.Steps = s.steps
 	return s.exec
 }
@@ -751,12 +757,13 @@ func KeyID(k any) int {
 	if cur == nil {
 		return 0
 	}
-	if id, ok := cur.keyIDs[k]; ok {
-		return id
+	for i, x := range cur.keyList {
+		if x == k {
+			return i + 1
+		}
 	}
-	id := len(cur.keyIDs) + 1
-	cur.keyIDs[k] = id
-	return id
+	cur.keyList = append(cur.keyList, k)
+	return len(cur.keyList)
 }
 
 // SortedKeys returns the keys of m in a canonical order: natural order for
